@@ -356,10 +356,11 @@ class ImageSystem(System):
 
 
 TITLES = [("p-title", '<p class="title">T *t*</p>', "T *t*"), ("div-title", '<div class="title">T2</div>', "T2"),
-          ("p-admonition-title", '<p class="admonition-title">T3</p>', "T3"), ("none", "", "Note")]
+          ("p-admonition-title", '<p class="admonition-title">T3</p>', "T3"), ("none", "", "Note"),
+          ("p-title-tab", '<p class="title\tbig">T4</p>', "T4"), ("p-title-second-lf", '<p class="big\ntitle">T5</p>', "T5")]
 BODIES = [([], ""), (["body *em* `c`"], "body *em* `c`\n"), (["one", "two **s**"], "one\n\ntwo **s**\n"),
           (["- a\n- b"], "- a\n- b\n"), (["[l](u) $x$ {#id}"], "[l](u) $x$ {#id}\n")]
-ADM_ATTRS = [("", []), (" note", []), (" warning extra", []), ("", [("name", "nm")]), (" tip", [("name", "n-2"), ("id", "i")]), ("", [("title", "tt")])]
+ADM_ATTRS = [("", []), (" note", []), ("\twarning", []), ("\nwarning  extra", []), (" warning extra", []), ("", [("name", "nm")]), (" tip", [("name", "n-2"), ("id", "i")]), ("", [("title", "tt")])]
 
 
 class AdmonitionSystem(System):
@@ -483,6 +484,7 @@ class GfmSystem(System):
 
 IMG_FORMS = ['<img src="a.png">', '<img src="b.png" alt="B b">', '<img src="c.png" class="k l" width="10px">', '<img src="d.png" height="5em" align="left">', '<img src="e.png"/>',
              '<img src="f.png" alt="  padded   value  ">', '<img src="g.png" alt="tab\tand  two">']
+NOSRC = ['<img alt="nosrc">', '<img src="" class="k">']
 ADM_FORMS = ['<div class="admonition tip" name="an">\n<p class="title">AT</p>\n<p>abody *e*</p>\n</div>', '<div class="admonition">\n<p>plain body</p>\n</div>']
 
 
@@ -506,13 +508,13 @@ class MultiSystem(System):
                             "the image nodes must equal, one by one, those of the corresponding {image} directives")
 
     def bounds(self):
-        return {"elements": 2 if self.tier == "quick" else 3, "forms": len(IMG_FORMS) + len(ADM_FORMS)}
+        return {"elements": 2 if self.tier == "quick" else 3, "forms": len(IMG_FORMS) + len(ADM_FORMS) + len(NOSRC)}
 
     def rule(self):
         return "one case = one block of 2-3 elements; non-trivial = an element without options follows one with options"
 
     def cases(self):
-        forms = list(range(len(IMG_FORMS) + len(ADM_FORMS)))
+        forms = list(range(len(IMG_FORMS) + len(ADM_FORMS) + len(NOSRC)))
         for t in itertools.product(forms, repeat=2):
             yield list(t)
         if self.tier != "quick":
@@ -521,7 +523,7 @@ class MultiSystem(System):
 
     def run(self, idx):
         cfg = MdParserConfig(enable_extensions=["html_image", "html_admonition"])
-        forms = IMG_FORMS + ADM_FORMS
+        forms = IMG_FORMS + ADM_FORMS + NOSRC  # an <img> without src is reported; its siblings are converted all the same
         text = "\n".join(forms[i] for i in idx) + "\n"
         doc, w = render(text, cfg)
         imgs = list(doc.findall(nodes.image))
@@ -539,9 +541,15 @@ class MultiSystem(System):
                                           f"element #{j} {IMG_FORMS[i]} in block {text!r}: {pf(node).strip()}, alone / as directive: {pf(rimg[0]).strip()}", text=text))
                     break
         adm = list(doc.findall(nodes.admonition))
-        if len(adm) != sum(1 for i in idx if i >= len(IMG_FORMS)):
+        nadm = sum(1 for i in idx if len(IMG_FORMS) <= i < len(IMG_FORMS) + len(ADM_FORMS))
+        if len(adm) != nadm:
             viol.append(violation("equivalence", {"clause": "multi-element", "kind": "admonition-count"},
-                                  f"{len(adm)} admonition nodes for {sum(1 for i in idx if i >= len(IMG_FORMS))} div.admonition elements", text=text))
+                                  f"{len(adm)} admonition nodes for {nadm} div.admonition elements", text=text))
+        nno = sum(1 for i in idx if i >= len(IMG_FORMS) + len(ADM_FORMS))
+        rep = sum(1 for m in doc.findall(nodes.system_message) if "missing 'src'" in m.astext())
+        if rep != nno:
+            viol.append(violation("equivalence", {"clause": "multi-element", "kind": "nosrc-report"},
+                                  f"{rep} \"missing 'src'\" reports for {nno} <img> elements without src", text=text))
         nt = any(a < len(IMG_FORMS) and IMG_FORMS[a] in ('<img src="a.png">', '<img src="e.png"/>') for a in idx[1:])
         return Obs(digest=tuple(pf(n) for n in imgs), nontrivial=nt, violations=viol[:2], transitions=1 + len(want), validated=len(want))
 
